@@ -38,6 +38,28 @@ def check(run):
         _imputer(run, prog, cls)
 
 
+class FilterRun:
+    """Forwards obligations of selected rules only (lets C04 reuse the VALUE/DRAW clauses)."""
+    def __init__(self, run, rules, rename=None):
+        self._run, self._rules, self._rename = run, set(rules), rename or {}
+
+    def __getattr__(self, name):
+        return getattr(self._run, name)
+
+    def ok(self, rule, *a, **k):
+        if rule in self._rules:
+            self._run.ok(self._rename.get(rule, rule), *a, **k)
+
+    def fail(self, rule, *a, **k):
+        if rule in self._rules:
+            self._run.fail(self._rename.get(rule, rule), *a, **k)
+
+    def check(self, cond, rule, *a, **k):
+        if rule in self._rules:
+            return self._run.check(cond, self._rename.get(rule, rule), *a, **k)
+        return bool(cond)
+
+
 def _imputer(run, prog, cls):
     s = prog.summarise(cls, "impute")
     fq = f"{cls.name}.impute"
